@@ -27,7 +27,8 @@ def ecandP : P (ECand Float) := do
   let d2 ← float
   let cls ← optOf nat
   let veh ← bool
-  pure ⟨id, d2, cls, veh⟩
+  let gc ← optOf float
+  pure ⟨id, d2, cls, veh, gc⟩
 
 /-- an absent table (the harness could not read the coordinate) is never consulted by the model -/
 def tableP (p : P β) : P (List β) := do
